@@ -382,7 +382,8 @@ Proof.
   - destruct (h_nb h <=? b); [now apply Cexp|]. destruct rej; [now apply Cexp|].
     destruct (register h c cn b KClient u) as [h1 o1] eqn:Hr. cbn [fst]. rewrite (fst_eq _ _ _ Hr). now apply ci_register.
   - destruct (v2_check (h_nb h) b t); [now apply ci_register|now apply Cexp].
-  - destruct (throttled h (c_addr cn) ACT_INTERNAL); [now apply Cexp|].
+  - destruct (N.eqb tok 4); [now apply Cexp|].
+    destruct (throttled h (c_addr cn) ACT_INTERNAL); [now apply Cexp|].
     destruct (negb (N.eqb tok 0)); [cbn [fst]; apply Cexp; apply Cfail|].
     destruct (h_nb h <=? b); [cbn [fst]; apply Cexp; apply Cfail|]. now apply ci_register.
   - destruct (throttled h (c_addr cn) ACT_RESUME); [exact C|].
